@@ -428,6 +428,26 @@ impl TransactionWorkspace {
         Ok(())
     }
 
+    /// Abandon this transaction without touching the store.
+    ///
+    /// Operations are only recorded in the workspace and never applied before
+    /// commit, so there is nothing to undo in the store.
+    ///
+    /// # Errors
+    ///
+    /// Returns an error if the transaction is already committed.
+    pub fn abandon(&self) -> Result<()> {
+        let mut state = self.state.write();
+        if *state == TransactionState::Committed {
+            return Err(ChainError::TransactionFailed(
+                "cannot rollback committed transaction".to_string(),
+            ));
+        }
+        *state = TransactionState::RolledBack;
+        drop(state);
+        Ok(())
+    }
+
     pub fn checkpoint_bytes(&self) -> &[u8] {
         &self.checkpoint_bytes
     }
